@@ -1,4 +1,4 @@
-(* SimPkgP.v — C12 (simulated half): the request packages of SimulatedExecution never strand their order. *)
+(* SimPkgP.v — C12 (simulated half): no package of SimulatedExecution strands its order. *)
 From Coq Require Import ZArith List Bool Lia ZifyBool.
 From V Require Import Model.Num Model.Status Model.Sim Model.SimLoop.
 Open Scope Z_scope.
@@ -34,14 +34,56 @@ Proof. unfold reset_order, final_status. destruct (so_status o) eqn:E; cbn; auto
 Lemma reset_order_name cs now o : so_name (reset_order cs now o) = so_name o.
 Proof. unfold reset_order. destruct (status_eqb (so_status o) SExecComplete); reflexivity. Qed.
 
-(* the request packages (cancel / update / replace) of the simulated execution: whatever the outcome, the order of the package is
-   Executable or Execution complete afterwards - never left Cancelling / Updating / Replacing *)
-Theorem exec_pkg_request_settles tb cf now s p m b o :
+
+
+Lemma name_set_frags tb o fr : so_name (set_frags tb o fr) = so_name o.
+Proof. unfold set_frags. destruct (wap tb fr). reflexivity. Qed.
+Lemma name_add_frag tb o pt p s : so_name (add_frag tb o pt p s) = so_name o.
+Proof. apply name_set_frags. Qed.
+Lemma name_price_matched tb pt sd price : forall avail rem o, so_name (price_matched tb pt sd price rem avail o) = so_name o.
+Proof.
+  induction avail as [|[ap asz] r IH]; intros rem o; cbn [price_matched]; [reflexivity|].
+  destruct (rem =? 0); [reflexivity|]. destruct (match sd with Back => price <=? ap | Lay => ap <=? price end); [|reflexivity].
+  cbv zeta. rewrite IH. apply name_add_frag.
+Qed.
+Lemma name_vwap_loop tb pt sd price : forall avail rem o, so_name (vwap_loop tb pt sd price rem avail o) = so_name o.
+Proof.
+  induction avail as [|[ap asz] r IH]; intros rem o; cbn [vwap_loop]; [reflexivity|].
+  destruct (rem =? 0); [reflexivity|]. cbv zeta.
+  match goal with |- context [if ?c then _ else _] => destruct c end; [|reflexivity]. rewrite IH. apply name_add_frag.
+Qed.
+Lemma name_vwap_matched tb pt sd price size avail minfill o : so_name (vwap_matched tb pt sd price size avail minfill o) = so_name o.
+Proof.
+  unfold vwap_matched. cbv zeta. destruct (so_matched (vwap_loop tb pt sd price size avail o) <? minfill); [|apply name_vwap_loop].
+  cbn [add_cancelled upd_buckets so_name]. rewrite name_set_frags. apply name_vwap_loop.
+Qed.
+Lemma name_place_resp tb c o ok : so_name (fst (place_resp tb c o ok)) = so_name o.
+Proof. unfold place_resp. destruct (c_full c && ok && negb (remaining o =? 0)); [apply name_add_frag|reflexivity]. Qed.
+
+Lemma name_sim_place tb c ms b mv o : so_name (fst (sim_place tb c ms b mv o)) = so_name o.
+Proof.
+  unfold sim_place.
+  repeat (first
+    [ rewrite name_place_resp
+    | match goal with
+      | |- context [if ?c then _ else _] => destruct c
+      | |- context [match find_runner ?x ?y with _ => _ end] => destruct (find_runner x y)
+      | |- context [match so_type ?x with _ => _ end] => destruct (so_type x)
+      | |- context [match so_side ?x with _ => _ end] => destruct (so_side x)
+      | |- context [match piq_of ?x ?y with _ => _ end] => destruct (piq_of x y)
+      end
+    | progress cbv zeta ]);
+  cbn [add_voided add_lapsed add_cancelled upd_buckets upd_sim so_name]; rewrite ?name_price_matched, ?name_vwap_matched; try reflexivity.
+Qed.
+
+(* every package of the simulated execution (place / cancel / update / replace), whatever the simulated exchange answers: the order of the
+   package is Executable or Execution complete afterwards - never left Pending / Cancelling / Updating / Replacing *)
+Theorem exec_pkg_settles tb cf now s p m b o :
   get_market (pk_market p) (s_markets s) = Some m -> mk_book m = Some b -> get_order (pk_order p) (mk_orders m) = Some o ->
-  so_status o <> SViolation -> pk_kind p <> KPlace ->
+  so_status o <> SViolation ->
   exists m' o', get_market (pk_market p) (s_markets (exec_pkg tb cf now s p)) = Some m' /\ get_order (pk_order p) (mk_orders m') = Some o' /\ final_status o'.
 Proof.
-  intros Hm Hb Ho Hv Hk. unfold exec_pkg. rewrite Hm, Hb, Ho.
+  intros Hm Hb Ho Hv. unfold exec_pkg. rewrite Hm, Hb, Ho.
   replace (status_eqb (so_status o) SViolation) with false by (destruct (so_status o); try reflexivity; congruence).
   cbv zeta.
   assert (Hname : so_name o = pk_order p) by (unfold get_order in Ho; apply find_some in Ho; destruct Ho as [_ Ho]; lia).
@@ -50,7 +92,11 @@ Proof.
                           get_order (pk_order p) (mk_orders m') = Some o' /\ final_status o').
   { intros o2 Hn Hf. eexists. exists o2. split; [apply get_market_upd; [exact Hm|reflexivity]|]. split; [|exact Hf].
     cbn [set_orders mk_orders]. rewrite Hn. apply (get_order_upd_const _ _ _ o); [exact Ho|exact Hn]. }
-  destruct (pk_kind p); [congruence| | |].
+  destruct (pk_kind p).
+  - (* place: the simulated exchange always decides *)
+    pose proof (name_sim_place tb (client_of cf (so_strat o)) (mk_static m) b (pk_mv p) o) as Hn1.
+    destruct (sim_place tb (client_of cf (so_strat o)) (mk_static m) b (pk_mv p) o) as [o1 ok]. cbn [fst] in Hn1. cbn [s_markets].
+    apply Hput; [destruct ok; cbn; congruence|destruct ok; [left|right]; reflexivity].
   - (* cancel *)
     destruct (sim_cancel b o) as [[o1 ok] c] eqn:Ec. cbn [s_markets].
     pose proof (sim_cancel_name b o) as Hn1. rewrite Ec in Hn1. cbn [fst] in Hn1.
